@@ -17,6 +17,12 @@ META = {
         level_note="Trusted: Go crypto/aes, crypto/cipher GCM, encoding/gob. File system errors are not injected.",
         technique="property-based testing: exhaustive fault enumeration over file bytes/keys + rapid random damage, round-trip oracle",
     ),
+    "C08": dict(
+        level_text="Exhaustive cancellation index k=0..n+1 for every cancellable operation on small chain/wide DAGs, plus random (operation, shape, size<=60, k) cases, arithmetic early exits, real truncations of >1000-vertex chains and slow-consumer x writer streaming scenarios; verdict from the goroutine profile (parked walker / lock cycle) and probe operations, never from a timeout alone.",
+        design_ref="DESIGN.md §4 C08, §3.4",
+        level_note="Trusted: Go runtime goroutine dump format; the counting context models cancellation between two polls of ctx.Done(). Goroutine-level preemption points inside one call are not enumerated. A watchdog hit without a blocking pattern is reported as inconclusive.",
+        technique="property-based testing with fault injection (counting context cancellation points, exhaustive at small scope) + deterministic goroutine-profile oracle",
+    ),
 }
 
 def _na():
